@@ -117,15 +117,43 @@ def controls_for(prop, maxn=3):
     return [m for m in load() if m['property'] == prop and m.get('control') and not m.get('benign')][:maxn]
 
 
+def _worker_init(counter):
+    with counter.get_lock():
+        k = counter.value
+        counter.value += 1
+    os.environ['VERIF_CACHE'] = os.path.join(VERIF, '.cache', 'worker%d' % k)
+
+
+def _worker_run(m):
+    return m, run_one(m)
+
+
 def main(argv):
+    jobs = 1
+    for a in list(argv):
+        if a.startswith('-j'):
+            jobs = max(1, int(a[2:] or 4))
+            argv.remove(a)
     ms = load()
     if argv:
         ms = [m for m in ms if m['id'] in argv or m['property'] in argv or ('refactorings' in argv and m['property'] == '*')]
     bad = 0
-    for m in ms:
-        st, msg = run_one(m)
+
+    def report(m, st, msg):
         print('%-12s %-4s %-7s %-28s %s' % (st.upper(), m['property'], m['rule'], m['id'], msg), flush=True)
-        if st in ('missed', 'broken', 'false-alarm'):
-            bad += 1
+        return st in ('missed', 'broken', 'false-alarm')
+    if jobs == 1:
+        for m in ms:
+            st, msg = run_one(m)
+            bad += report(m, st, msg)
+    else:
+        # each worker has its own cache directory (cargo target dir, facts): extractions run side by side
+        import multiprocessing
+        from concurrent.futures import ProcessPoolExecutor
+        subprocess.run([os.path.join(VERIF, 'check'), '--setup'], capture_output=True)
+        counter = multiprocessing.Value('i', 0)
+        with ProcessPoolExecutor(max_workers=jobs, initializer=_worker_init, initargs=(counter,)) as ex:
+            for m, (st, msg) in ex.map(_worker_run, ms):
+                bad += report(m, st, msg)
     print('%d mutants, %d not caught' % (len(ms), bad))
     return 1 if bad else 0
